@@ -286,16 +286,16 @@ def rule_publish(cx):
     for f in site.event.facts:
         if f not in known:
             rep.incomplete(R_F, P + "delivers whenever subscribers exist", "the fan-out is conditional on %s, which the rule cannot interpret" % f.text(), where=cx.where(rel, f.stmt))
+    # every way out of publish in front of the fan-out: only "no subscribers" may return, only the type test may raise
     skipped = []
-    for node, facts, done in flow.exits:
-        if id(site.event.node) in done:
-            continue
-        no_subs = any(is_membership(f.cond, reg_text, key_text) and f.pol != isinstance(f.cond.ops[0], ast.In) for f in facts)
-        if not no_subs:
-            skipped.append((node, facts))
+    for ev in flow.events[:flow.events.index(site.event)]:
+        if isinstance(ev.node, ast.Return) and not any(is_membership(f.cond, reg_text, key_text) and f.pol != isinstance(f.cond.ops[0], ast.In) for f in ev.facts):
+            skipped.append(ev)
+        elif isinstance(ev.node, ast.Raise) and not any(isinstance(f.cond, ast.Call) and callee_name(f.cond) == "isinstance" and not f.pol for f in ev.facts):
+            rep.incomplete(R_F, P + "delivers whenever subscribers exist", "publish raises in front of the fan-out for a reason other than the type test: %s" % unp(ev.node), where=cx.where(rel, ev.node))
     rep.check(R_F, P + "delivers whenever subscribers exist", not skipped,
-              "publish can return without delivering%s" % (" when " + " and ".join(f.text() for f in skipped[0][1]) if skipped and skipped[0][1] else " unconditionally"),
-              where=cx.where(rel, (skipped[0][0] if skipped and skipped[0][0] is not None else fn)))
+              "publish can return without delivering%s" % (" when " + " and ".join(f.text() for f in skipped[0].facts) if skipped and skipped[0].facts else " unconditionally"),
+              where=cx.where(rel, skipped[0].node if skipped else fn))
     if tfact is not None:
         rep.ok(R_T, P + "type check dominates the fan-out", fact={"test": tfact.text(), "other side": tfact.origin})
     else:
@@ -526,15 +526,11 @@ def rule_params_core(cx):
         before = [c for e, c in pubs if id(e.node) in sup[0][0].done]
         rep.check(R, I, bool(before), "no self.pub_params.publish(self._params) is executed on every path before super().run(): nodes start with undeclared defaults",
                   where=cx.where(UROS, sup[0][1]), fact={"publish": unp(before[0]) if before else None})
-        nn = any(unp(f.cond) in ("self._params is None",) and not f.pol for f in sup[0][0].facts) or \
-            any(isinstance(e.node, ast.If) and unp(e.node.test) == "self._params is None" and id(e.node) in sup[0][0].done for e in flow.events)
-        rep.check(R, "Core.run initialises the parameter message when missing", nn, "self._params may still be None when it is published",
-                  where=cx.where(UROS, fn))
     # the read side
     def single_return(q):
         f = cx.fe.find_def(UROS, q)
         rets = [n for n in ast.walk(f) if isinstance(n, ast.Return)]
-        return f, (unp(rets[0].value) if len(rets) == 1 and rets[0].value is not None else None)
+        return f, (unp(cx.inl(rets[0].value, f)) if len(rets) == 1 and rets[0].value is not None else None)
     f, r = single_return("Core.get_param")
     rep.check(R, "Core.get_param reads self._params.data[name]", r == "self._params.data[%s]" % params_of(f)[1], "returns %s" % r, where=cx.where(UROS, f))
     f, r = single_return("Param.get")
@@ -542,8 +538,8 @@ def rule_params_core(cx):
     f = cx.fe.find_def(UROS, "Param.update")
     fl = cx.flow(f)
     good = [e for e in fl.events if isinstance(e.node, ast.Assign) and [unp(t) for t in e.node.targets] == ["self.value"]
-            and unp(e.node.value) == "self.core.get_param(self.name)" and id(e.node) in fl.exit_done()]
-    rep.check(R, "Param.update reads core.get_param(self.name) into self.value", bool(good) and len(self_assigns(enclosing_class(f), "value")) <= 3,
+            and unp(cx.inl(e.node.value, f)) == "self.core.get_param(self.name)" and id(e.node) in fl.exit_done()]
+    rep.check(R, "Param.update reads core.get_param(self.name) into self.value", bool(good),
               "Param.update must unconditionally assign self.value = self.core.get_param(self.name)", where=cx.where(UROS, f))
     par = cx.fe.find_def(UROS, "Param")
     ctor_field(cx, UROS, par, "name", "name", R)
@@ -1192,7 +1188,7 @@ def run(w, rep, tier):
     rule_topics(cx)
     # vacuity guard: decided instances confirmed by hand on the tree of 2026-10-02 (usage-count rules get ~80%)
     for rule, n in (("C20.publish-typecheck", 1), ("C20.publish-fanout", 8), ("C20.registry-writes", 13), ("C20.registry-lock", 8),
-                    ("C20.param-broadcast", 9), ("C20.param-wiring", 11), ("C20.logger-subscribes-all", 3), ("C20.logger-row", 4),
+                    ("C20.param-broadcast", 8), ("C20.param-wiring", 11), ("C20.logger-subscribes-all", 3), ("C20.logger-row", 4),
                     ("C20.logger-callback", 1), ("C20.core-attr-resolves", 25), ("C20.est-predict-dt", 3), ("C20.est-rate-limit", 6),
                     ("C20.topic-types", 40)):
         rep.floor(rule, n)
